@@ -636,3 +636,68 @@ M("a1-shift-no-raise-for-signed", "C03", "fire A1", "src/compile.rs",
                     circuit.push_panic_if(overflow, PanicReason::Overflow, meta);
                 }
                 bits_unshifted""", "signed shifts by >= width no longer raise")
+
+# ---------------------------------------------------------------- C08
+REVERT("revert-signed-split", "C08", "fire M2", "4c5c3ff", "pre-fix tree: signed catch-all query not split, negative bounds dropped")
+M("m1-selector-is-match-only", "C08", "fire M1", "src/compile.rs",
+  """                    let no_prev_match = circuit.push_not(has_prev_match);
+                    let s = circuit.push_and(no_prev_match, is_match);""",
+  """                    let s = is_match;""", "a later matching arm overrides an earlier one")
+M("m1-flag-updated-first", "C08", "fire M1", "src/compile.rs",
+  """                    let no_prev_match = circuit.push_not(has_prev_match);
+                    let s = circuit.push_and(no_prev_match, is_match);
+
+                    env.pop();
+""",
+  """                    has_prev_match = circuit.push_or(has_prev_match, is_match);
+                    let no_prev_match = circuit.push_not(has_prev_match);
+                    let s = circuit.push_and(no_prev_match, is_match);
+
+                    env.pop();
+""", "the flag already includes the current arm: no arm is selected")
+M("m1-clauses-reversed", "C08", "fire M1", "src/compile.rs",
+  """                for (pattern, ret_expr) in clauses {
+                    let mut env = env.clone();""",
+  """                for (pattern, ret_expr) in clauses.iter().rev() {
+                    let mut env = env.clone();""", "the last matching arm wins")
+M("m3-skip-lower-bound-at-zero", "C08", "fire M3", "src/compile.rs",
+  """                let (lt_min, _) =
+                    circuit.push_comparator_circuit(bits, match_expr, signed, &min, signed);
+                let (_, gt_max) =
+                    circuit.push_comparator_circuit(bits, match_expr, signed, &max, signed);
+                let not_lt_min = circuit.push_not(lt_min);
+                let not_gt_max = circuit.push_not(gt_max);
+                circuit.push_and(not_lt_min, not_gt_max)
+            }
+            PatternEnum::SignedInclusiveRange(min, max, _) => {""",
+  """                let (_, gt_max) =
+                    circuit.push_comparator_circuit(bits, match_expr, signed, &max, signed);
+                let not_gt_max = circuit.push_not(gt_max);
+                if min.iter().all(|w| *w == 0) {
+                    return not_gt_max;
+                }
+                let (lt_min, _) =
+                    circuit.push_comparator_circuit(bits, match_expr, signed, &min, signed);
+                let not_lt_min = circuit.push_not(lt_min);
+                circuit.push_and(not_lt_min, not_gt_max)
+            }
+            PatternEnum::SignedInclusiveRange(min, max, _) => {""", "0..n on a signed scrutinee matches negative values")
+M("m3-gt-lt-swapped", "C08", "fire M3", "src/compile.rs",
+  """                let (lt_min, _) =
+                    circuit.push_comparator_circuit(bits, match_expr, signed, &min, signed);
+                let (_, gt_max) =
+                    circuit.push_comparator_circuit(bits, match_expr, signed, &max, signed);
+                let not_lt_min = circuit.push_not(lt_min);
+                let not_gt_max = circuit.push_not(gt_max);
+                circuit.push_and(not_lt_min, not_gt_max)
+            }
+            PatternEnum::Tuple(fields) => {""",
+  """                let (_, lt_min) =
+                    circuit.push_comparator_circuit(bits, match_expr, signed, &min, signed);
+                let (_, gt_max) =
+                    circuit.push_comparator_circuit(bits, match_expr, signed, &max, signed);
+                let not_lt_min = circuit.push_not(lt_min);
+                let not_gt_max = circuit.push_not(gt_max);
+                circuit.push_and(not_lt_min, not_gt_max)
+            }
+            PatternEnum::Tuple(fields) => {""", "signed ranges compare with the wrong comparator output")
